@@ -26,7 +26,7 @@ if [ ! -x "$HERE/tools/bin/instrument" ] || [ "$HERE/tools/instrument/main.go" -
   mkdir -p "$HERE/tools/bin"
   ( cd "$HERE/tools/instrument" && "$GO" build -o "$HERE/tools/bin/instrument" . ) || fail "instrumenter does not build"
 fi
-"$HERE/tools/bin/instrument" -root "$S/repo" -report "$S/instrument.json" || fail "instrumentation failed"
+timeout 600 "$HERE/tools/bin/instrument" -root "$S/repo" -report "$S/instrument.json" || fail "instrumentation failed"
 
 # simulator packages live inside the copy so that no go.mod changes
 rm -rf "$S/repo/v2/verif" "$S/repo/verifsim"
